@@ -644,3 +644,43 @@ func runXS(c *Case) *Obs {
 	o.Obs = []any{res}
 	return o
 }
+
+func init() { components["samplestream"] = runSampleStream }
+
+// C09: xrand.SampleStream takes ownership of its stream. cfg: evs (script), k, live (ctx), seed.
+func runSampleStream(c *Case) *Obs {
+	r := &rec{pulls: map[int]int{}, errs: map[int]*codeErr{}}
+	evs := [][]any{}
+	for _, e := range c.Cfg["evs"].([]any) {
+		evs = append(evs, e.([]any))
+	}
+	src := &cStream{inner: &scriptStream{evs: evs, r: r}, id: 0, r: r}
+	ctx := context.Background()
+	if live, _ := c.Cfg["live"].(bool); !live {
+		cctx, cancel := context.WithCancel(ctx)
+		cancel()
+		ctx = cctx
+	}
+	o := &Obs{}
+	var res any
+	p, _ := protect(func() {
+		out, err := xrandSampleStream(ctx, int64(num(c.Cfg["seed"])), src, num(c.Cfg["k"]))
+		if err != nil {
+			res = errCode(err)
+		} else {
+			if out == nil {
+				out = []int{}
+			}
+			res = []any{"val", out}
+		}
+	})
+	if p {
+		res = []any{"panic"}
+	}
+	o.Obs = []any{[]any{res, pullsOf(r)}}
+	if r.log == nil {
+		r.log = [][]any{}
+	}
+	o.Aux = map[string]any{"log": r.log}
+	return o
+}
